@@ -115,7 +115,11 @@ def _case(draw, nmax=25, fmt=None):
         lrs = lrs[:2]
         lrs[0]["code"] = 6
     variant = {"padded": False} if fmt == "naunet" else {}
-    return {"fmt": fmt, "lines": lrs, "variant": variant, "points": [draw(_point()) for _ in range(3)]}
+    case = {"fmt": fmt, "lines": lrs, "variant": variant, "points": [draw(_point()) for _ in range(3)]}
+    if draw(st.integers(0, 3)) == 0:
+        # the user overrides one reaction with an own rate: every other reaction must keep its database law
+        case["override"] = draw(st.integers(0, len(lrs) - 1))
+    return case
 
 
 def strategy(tier):
@@ -159,8 +163,17 @@ def check_case(case, tier):
         extra = [F.encode_leeds({"r": ["H2", "CO"], "p": ["N2", "H2O"], "a": 1e-10, "b": 0.0, "c": 0.0, "tmin": 0, "tmax": 0, "idx": 1, "code": 1})]
     expect_refusal = any(lr["fmt"] == "kida" and lr["code"] == 6 for lr in lrs)
     with N.Scratch() as d:
+        overridden = set()
         try:
             net = build_file_network(fmt, lrs, case.get("variant", {}), extra)
+            ov = case.get("override")
+            if ov is not None and ov < len(lrs) and not expect_refusal:
+                idxs = [r.idxfromfile for r in net.reaction_list]
+                if all(i == -1 for i in idxs) or all(i != -1 for i in idxs):
+                    key = idxs[ov + len(extra)] if idxs[ov + len(extra)] != -1 else ov + len(extra)
+                    net.rate_modifier = {key: "7.5e-13"}
+                    overridden = {j for j in range(len(lrs)) if (idxs[j + len(extra)] if idxs[j + len(extra)] != -1 else j + len(extra)) == key}
+                    labels.append("one-rate-overridden")
             projs = R.render_rates(net, d)
         except NotImplementedError as e:
             if expect_refusal:
@@ -209,8 +222,13 @@ def check_case(case, tier):
                     if lr["fmt"] == "kida" and lr["code"] == 6:
                         continue
                     pa, pb, pc, _, _ = L.printed_values(lr, case.get("variant", {}))
-                    ref = laws.gas_rate(dict(lr, pa=pa, pb=pb, pc=pc), P, idx)
                     got = k[i + off]
+                    if i in overridden:
+                        if not R.close(got, 7.5e-13):
+                            failures.append(("rate/override-not-applied", f"{method}: k[{i + off}] = {got!r} but this reaction's rate was overridden with 7.5e-13"))
+                            break
+                        continue
+                    ref = laws.gas_rate(dict(lr, pa=pa, pb=pb, pc=pc), P, idx)
                     if not R.close(got, ref):
                         if not (math.isfinite(got) and math.isfinite(ref)) and max(abs(pa), abs(pb), abs(pc)) > 1e100:
                             labels.append("inconclusive-nonfinite-at-extreme")
